@@ -26,13 +26,15 @@ VARIABLES
   sused,    \* [test -> SUBSET key]      patterns a test execution used (reset at its end)
   addrM,    \* set of <<path, hdr>> addressed by a Match* call in this process
   addrS,    \* set of standalone paths addressed in this process
+  usedF,    \* multi-entry files addressed in this process
+  visitedD, \* directories in which a call of this process addressed something
   cnt,      \* [passed, failed, added, updated -> Nat]
   nskip,    \* number of snaps.Skip* calls
   ran,      \* tests that began in this process
   skipSet,  \* tests that called snaps.Skip*
   fmtOf     \* [vid -> vl]  text go-snaps produced for a value identity, first time seen
 
-cvars == <<mode, slot, order, alone, ord, sord, sused, addrM, addrS, cnt, nskip, ran, skipSet, fmtOf>>
+cvars == <<mode, slot, order, alone, ord, sord, sused, addrM, addrS, usedF, visitedD, cnt, nskip, ran, skipSet, fmtOf>>
 
 Get(f, k, d) == IF k \in DOMAIN f THEN f[k] ELSE d
 Put(f, k, v) == [x \in DOMAIN f \cup {k} |-> IF x = k THEN v ELSE f[x]]
@@ -65,25 +67,25 @@ Same(st, rc, fm) ==
 CStart(m) ==
   /\ mode' = m
   /\ ord' = <<>> /\ sord' = <<>> /\ sused' = <<>>
-  /\ addrM' = {} /\ addrS' = {}
+  /\ addrM' = {} /\ addrS' = {} /\ usedF' = {} /\ visitedD' = {}
   /\ cnt' = ZeroCnt /\ nskip' = 0 /\ ran' = {} /\ skipSet' = {}
   /\ UNCHANGED <<slot, order, alone, fmtOf>>
 
 CBegin(t) ==
   /\ ran' = ran \cup {t}
-  /\ UNCHANGED <<mode, slot, order, alone, ord, sord, sused, addrM, addrS, cnt, nskip, skipSet, fmtOf>>
+  /\ UNCHANGED <<mode, slot, order, alone, ord, sord, sused, addrM, addrS, usedF, visitedD, cnt, nskip, skipSet, fmtOf>>
 
 \* cleanups of test t run: its ordinals restart at 1 (C03: repeated executions, -count)
 CEnd(t) ==
   /\ ord'  = [x \in DOMAIN ord |-> IF x[2] = t THEN 0 ELSE ord[x]]
   /\ sord' = [x \in DOMAIN sord |-> IF x \in Get(sused, t, {}) THEN 0 ELSE sord[x]]
   /\ sused' = Del(sused, {t})
-  /\ UNCHANGED <<mode, slot, order, alone, addrM, addrS, cnt, nskip, ran, skipSet, fmtOf>>
+  /\ UNCHANGED <<mode, slot, order, alone, addrM, addrS, usedF, visitedD, cnt, nskip, ran, skipSet, fmtOf>>
 
 CSkip(t) ==
   /\ skipSet' = skipSet \cup {t}
   /\ nskip' = nskip + 1
-  /\ UNCHANGED <<mode, slot, order, alone, ord, sord, sused, addrM, addrS, cnt, ran, fmtOf>>
+  /\ UNCHANGED <<mode, slot, order, alone, ord, sord, sused, addrM, addrS, usedF, visitedD, cnt, ran, fmtOf>>
 
 (***************************************************************************)
 (* One Match* call.                                                         *)
@@ -130,14 +132,16 @@ CMatch(c, out, seen) ==
           /\ sused' = Put(sused, c.test, Get(sused, c.test, {}) \cup {CallKey(c)})
           /\ addrS' = addrS \cup {CallSPath(c)}
           /\ alone' = IF Writes(out) THEN Put(alone, CallSPath(c), v) ELSE alone
-          /\ UNCHANGED <<ord, addrM, slot, order>>
+          /\ UNCHANGED <<ord, addrM, usedF, slot, order>>
      ELSE /\ ord' = Put(ord, <<CallPath(c), c.test>>, CallK(c))
           /\ addrM' = addrM \cup {<<CallPath(c), CallHdr(c)>>}
+          /\ usedF' = usedF \cup {CallPath(c)}
           /\ slot' = IF Writes(out) THEN Put(slot, <<CallPath(c), CallHdr(c)>>, v) ELSE slot
           /\ order' = IF out = "added"
                       THEN Put(order, CallPath(c), Append(Get(order, CallPath(c), <<>>), CallHdr(c)))
                       ELSE order
           /\ UNCHANGED <<sord, sused, addrS, alone>>
+  /\ visitedD' = visitedD \cup {DirOf(c.cfg, c.tdir)}
   /\ cnt' = IF out \in DOMAIN cnt THEN [cnt EXCEPT ![out] = @ + 1] ELSE cnt
   /\ fmtOf' = IF ~c.val.known /\ c.val.vid # "" /\ c.val.vid \notin DOMAIN fmtOf /\ Writes(out)
               THEN Put(fmtOf, c.val.vid, seen) ELSE fmtOf
